@@ -141,30 +141,24 @@ def theorems_in(vfile):
 
 
 def print_assumptions(vfile, timeout=600):
-    """re-run coqc on an (already built) Properties file and collect the Print Assumptions output per theorem"""
+    """re-run coqc on an (already built) Properties file; the k-th `Print Assumptions` block belongs to the k-th Theorem"""
     with Lock():
         rc, out, _ = sh('coqc -q -R . IOptV %s' % vfile, cwd=COQ, timeout=timeout)
     if rc:
         return None, out
-    res = {}
-    # our Properties files print a marker line before each Print Assumptions
+    blocks = []
     cur = None
     for line in out.splitlines():
-        m = re.match(r'\s*=\s*"ASSUMPTIONS (\w+)"', line)
-        if m:
-            cur = m.group(1); res[cur] = []
-            continue
-        if cur is None or line.strip().startswith(': string'):
-            continue
-        line = line.strip()
-        if not line:
-            continue
         if line.startswith('Closed under the global context'):
-            res[cur] = []
+            blocks.append([]); cur = None
         elif line.startswith('Axioms:'):
-            pass
-        elif re.match(r'^[\w.]+\s*:', line):
-            res[cur].append(line.split(':')[0].strip())
+            cur = []; blocks.append(cur)
+        elif cur is not None:
+            m = re.match(r'^([A-Za-z_][\w.\']*)\s*(:|$)', line)
+            if m:
+                cur.append(m.group(1))
+    names = [n for n, _ in theorems_in(vfile)]
+    res = {n: (blocks[i] if i < len(blocks) else None) for i, n in enumerate(names)}
     return res, out
 
 
@@ -180,7 +174,7 @@ def coq_eval(text, tag='cases', timeout=900):
     name = '%s_%d' % (tag, _case_counter[0])
     path = os.path.join(d, name + '.v')
     open(path, 'w').write(text)
-    rc, out, dt = sh('ulimit -s unlimited 2>/dev/null; coqc -q -R %s IOptV -R %s Cases %s' % (COQ, d, path), timeout=timeout)
+    rc, out, dt = sh('ulimit -s unlimited 2>/dev/null; coqc -q -R %s IOptV %s' % (COQ, path), timeout=timeout)
     return rc, out, path
 
 
